@@ -24,24 +24,19 @@ TRUSTED = [
     "pandas itself (oracle of the end-to-end search)",
 ]
 PARTIAL = [
-    "C03_join_table_partial: the Merge decision table is legal except for one cell (predicate column present in both "
-    "inputs, only the left one renamed by its suffix, how=left) — C03_join_table_counterexample; the real code returns "
-    "wrong rows there (reported by the support search, sig kind=merge)",
-    "C03_reader_nulls needs null-compatible atoms; '!=' is pushed to the reader by the code and drops null rows "
-    "(C03_ne_null_counterexample; D9, reported by the support search, sig kind=parquet)",
-    "AsType is flagged _filter_passthrough although a cast can change the value a predicate reads "
-    "(C03_cross_value_changing_counterexample; D8, reported by family category_conformance and the support search)",
-    "C03_or_rewrite_parent_partial: Filter._simplify_up re-assembles its parent as type(parent)(new, *operands[1:]), correct "
-    "only when the filter is the parent's first operand (C03_or_rewrite_parent_counterexample; the real code returns wrong "
-    "rows / raises for Merge right inputs, binop right operands, Concat frames: support search, or_rewrite=True, "
-    "filter_is_first_operand=False)",
     "predicate substitution (p[op f := f]) is not modelled structurally: the crossing theorems take the substituted "
-    "predicate as predIn with the agreement hypothesis; whether the real rule performs the substitution completely is "
-    "checked by family category_conformance and the support search (ResetIndex leaves references to the reset frame in a "
-    "predicate that also reads the former index: AssertionError/IndexingError, sig op=reset_index former_index=mixed)",
+    "predicate as predIn with the agreement hypothesis (or, for casts, the unsubstituted predicate: C03_cross_rowlocal_cast); "
+    "whether the real rule substitutes completely and only under a sound guard is checked by family category_conformance "
+    "(the real rule is applied and both plans executed) and by the support search",
+    "AsType._is_value_preserving (np.can_cast 'safe') is not modelled: the guard is exercised by category_conformance on a "
+    "dtype grid; numpy calls int64->float64 safe although it is not injective above 2**53",
     "_check_dependents_are_predicates (graph walk) is not modelled: its result is an input of the model, "
     "the end-to-end search covers shared consumers",
+    "deeper occurrences of the filter inside other operands of its parent are replaced by the real substitute in the "
+    "harness (the model is the operand-level view of parent.substitute)",
     "(true,true) both-sides push on a key column is proven for inner/left/leftsemi only (the code never does it for right/outer)",
+    "D26 (open): Filter->Index rule + DiskShuffle's build-dependent row order; outside the model (row order inside a "
+    "shuffled partition is unspecified), found by the repeated corpus case only",
 ]
 EXPLANATION = (
     "Theorems over unbounded predicate trees and all valuations: OR-factoring preserves truth; and-split / squash; "
@@ -490,7 +485,7 @@ def _classify_pc(merge, cols):
 
 
 def _collisions(merge, cols):
-    """the two suffix-collision tests of Merge._simplify_up, as written there"""
+    """the two suffix-collision tests of Merge._filter_sides, as written there"""
     ls, rs = merge.suffixes[0], merge.suffixes[1]
     cols = cols or set()
     lcoll = ls != "" and any(f"{c}{ls}" in merge.columns and c in merge.right.columns for c in cols)
@@ -595,18 +590,26 @@ def fam_merge(ctx):
         if is_and:
             new = Filter(merge, pred.left)
             dep = new._name in {x()._name for x in deps[merge._name] if x() is not None}
-        reqs.append(f"pred mergeside how={cfg['how']} side={side} avail={int(avail)} and={int(is_and)} dep={int(dep)}")
+        lcoll, rcoll = _collisions(merge, pcols)
+        reqs.append(f"pred mergeside how={cfg['how']} side={side} lcoll={int(lcoll)} rcoll={int(rcoll)} "
+                    f"avail={int(avail)} and={int(is_and)} dep={int(dep)}")
         code.append("1" if real else "0")
         inputs.append({"fn": "_filter_passthrough_available", **cfg})
         nontriv.append(real)
-        cells.add((cfg["how"], side, avail, is_and, dep))
+        cells.add((cfg["how"], side, lcoll, rcoll, avail, is_and, dep))
+        if pcols is not None:
+            # the helper both places share
+            sides = merge._filter_sides(pcols)
+            reqs.append(f"pred mergepush side={side} lcoll={int(lcoll)} rcoll={int(rcoll)}")
+            code.append(("1" if sides[0] else "0") + ("1" if sides[1] else "0"))
+            inputs.append({"fn": "_filter_sides", **cfg})
+            nontriv.append(any(sides))
         if real and not is_and:
             res = merge._simplify_up(parent, deps)
             if res is None:
                 got = "00"
             else:
                 got = ("1" if res.left._name != merge.left._name else "0") + ("1" if res.right._name != merge.right._name else "0")
-            lcoll, rcoll = _collisions(merge, pcols)
             reqs.append(f"pred mergepush side={side} lcoll={int(lcoll)} rcoll={int(rcoll)}")
             code.append(got)
             inputs.append({"fn": "_simplify_up", **cfg})
@@ -711,6 +714,13 @@ def conformance_cases():
         {"a_gt0": num_preds["a_gt0"], "b_isin": num_preds["b_isin"], "a_eq0": lambda x: x["a"] == 0})
     add("AsType", "b_float", lambda: dfl().astype({"b": "float64"}), num_preds)
     add("AsType", "a_str", lambda: dfl().astype({"b": "str"}), {"b_eq": lambda x: x["b"] == "2", "a_gt0": num_preds["a_gt0"]})
+    add("AsType", "b_int32", lambda: dfl().astype({"b": "int32"}), {"b_isin": num_preds["b_isin"], "a_gt0": num_preds["a_gt0"]})
+    add("AsType", "int32_to_int64", lambda: dfl().astype({"b": "int32"}).astype({"b": "int64"}), {"b_isin": num_preds["b_isin"]})
+    add("AsType", "float_to_float32", lambda: dfl().astype({"a": "float32"}), {"a_gt0": num_preds["a_gt0"], "a_eq": lambda x: x["a"] == 0.5})
+    big = pd.DataFrame({"d": np.array([2**53 + 1, 5, 2**53, 2**53 + 3], dtype="int64"), "b": [1, 2, 3, 4]})
+    add("AsType", "int64_to_float64_above_2p53", lambda: dx.from_pandas(big, npartitions=2, sort=False).astype({"d": "float64"}),
+        {"d_gt": lambda x: x["d"] > 2**53, "d_eq": lambda x: x["d"] == 2**53})
+    cases[-1]["sig"] = cases[-2]["sig"] = {"kind": "cross", "op": "astype_int64_to_float64_above_2p53"}
     add("AsType", "c_Int64", lambda: dfl().astype({"c": "Int64"}), {"c_ne7": num_preds["c_ne7"], "c_isna": num_preds["c_isna"]})
     add("ResetIndex", "frame", lambda: dfl().reset_index(),
         {**num_preds, "index_gt": lambda x: x["index"] > 11, "index_and_a": lambda x: (x["index"] > 11) & (x["a"] > 0),
@@ -803,7 +813,7 @@ def fam_conformance(ctx):
 
 
 def fam_or_parent(ctx):
-    """T2: the parent re-assembly of Filter._simplify_up after OR-factoring = `type(parent)(new, *operands[1:])`."""
+    """T2: the parent re-assembly of Filter._simplify_up after OR-factoring = `parent.substitute(self, new)`."""
     import dask_expr as dx
     from dask_expr._core import collect_dependents
     from dask_expr._expr import Expr, Filter, rewrite_filters
@@ -852,14 +862,16 @@ def fam_or_parent(ctx):
             else:
                 out = []
                 for i, o in enumerate(res.operands):
-                    if isinstance(o, Expr) and o._name == new._name:
+                    inb = i < len(parent.operands)
+                    orig = parent.operands[i] if inb else None
+                    if isinstance(o, Expr) and o._name == new._name and isinstance(orig, Expr) and orig._name == fil._name:
                         out.append("new")
-                    elif isinstance(o, Expr):
-                        j = next((j for j, oo in enumerate(parent.operands) if isinstance(oo, Expr) and oo._name == o._name), None)
-                        out.append("?" if j is None else toks[j])
+                    elif isinstance(o, Expr) and isinstance(orig, Expr):
+                        # other operands: untouched, or (deeper occurrences) what the real substitute makes of them
+                        ok = o._name == orig._name or o._name == orig.substitute(fil, new)._name
+                        out.append(toks[i] if ok else "?")
                     else:
-                        same = i < len(parent.operands) and not isinstance(parent.operands[i], Expr) and (
-                            parent.operands[i] is o or repr(parent.operands[i]) == repr(o))
+                        same = inb and not isinstance(orig, Expr) and (orig is o or repr(orig) == repr(o))
                         out.append(toks[i] if same else "?")
                 got = ",".join(out)
             reqs.append("pred rebuild ops=" + ",".join(toks))
@@ -869,8 +881,8 @@ def fam_or_parent(ctx):
     model = drive(reqs)
     f.compare(inputs, code, model, nontriv)
     f.exhaustive = True
-    f.note = ("the model transliterates the re-assembly as written; C03_or_rewrite_parent_partial proves it correct only when the "
-              "filter is the parent's first operand — positions reached with the filter elsewhere: "
+    f.note = ("operand-level view of parent.substitute(self, new) (C03_or_rewrite_parent); positions reached with the filter "
+              "not the first operand: "
               + str(sorted({i["parent"] for i, nt in zip(inputs, nontriv) if nt})))
     return f
 
@@ -914,6 +926,7 @@ ATOMS = {
     # the former index as a column (only constructible after reset_index)
     "index>12": lambda x: x["index"] > 12,
     "index<b+11": lambda x: x["index"] < x["b"] + 11,
+    "d>2^53": lambda x: x["d"] > 2**53,
 }
 ATOM_NAMES = list(ATOMS)
 IDX_ATOM = ATOM_NAMES.index("idx>12")
@@ -946,9 +959,12 @@ def _ops():
         "rename": (lambda d: d.rename(columns={"a": "A", "c": "C"}).rename(columns={"A": "a", "C": "c"}), lambda p: p, False, False),
         "astype": (lambda d: d.astype({"b": "float64"}), lambda p: p.astype({"b": "float64"}), False, False),
         "astype_int": (lambda d: d.fillna(0).astype("int64"), lambda p: p.fillna(0).astype("int64"), False, False),
+        "astype_big": (lambda d: d.assign(d=d["d"] + (2**53 - 1)).astype({"d": "float64"}),
+                       lambda p: p.assign(d=p["d"] + (2**53 - 1)).astype({"d": "float64"}), False, False),
         "astype_Int64": (lambda d: d.astype({"c": "Int64"}), lambda p: p.astype({"c": "Int64"}), False, False),
         "reset_index": (lambda d: d.reset_index(), lambda p: p.reset_index(), False, True),
         "reset_index_drop": (lambda d: d.reset_index(drop=True), lambda p: p.reset_index(drop=True), False, True),
+        "series_reset_index": (lambda d: d["a"].reset_index(), lambda p: p["a"].reset_index(), False, True),
         "rename_axis": (lambda d: d.rename_axis(index="ii"), lambda p: p.rename_axis(index="ii"), False, False),
         "copy": (lambda d: d.copy(), lambda p: p.copy(), False, False),
         "sort_values": (lambda d: d.sort_values("b", shuffle_method="tasks"), lambda p: p.sort_values("b"), True, False),
@@ -1155,7 +1171,13 @@ def run_parquet(case):
 def run_case(case):
     kind = case["kind"]
     if kind == "cross":
-        return run_cross(case)
+        # `repeat`: DiskShuffle's row order inside a partition differs from build to build (uuid keys, D11), which
+        # makes the one query whose result depends on it nondeterministic; repeat until the first failure
+        for _ in range(case.get("repeat", 1)):
+            msg = run_cross(case)
+            if msg:
+                return msg
+        return None
     if kind == "merge":
         return run_merge(case)
     if kind == "parquet":
@@ -1172,7 +1194,8 @@ def _sig(case):
         atoms_used = set(tree_atoms(_tuple_tree(case["tree"])))
         fi = atoms_used & set(FORMER_INDEX_ATOMS)
         mixed = bool(fi) and (len(atoms_used) > 1 or ATOM_NAMES.index("index<b+11") in fi)
-        return {"kind": "cross", "op": "astype" if op.startswith("astype") else op, "shared": sh,
+        return {"kind": "cross", "op": "astype_int64_to_float64_above_2p53" if op == "astype_big" else
+                "astype" if op.startswith("astype") else op, "shared": sh,
                 "former_index": "mixed" if mixed else "only" if fi else "none",
                 "or_rewrite": _or_rewrite_fires(_tuple_tree(case["tree"])),
                 "filter_is_first_operand": sh not in ("other_consumer", "two_filters")}  # those put the filter under Concat
@@ -1221,7 +1244,11 @@ CORPUS = [
     {"kind": "operand", "position": "merge_right", "tree": ["or", ["a", 5], ["a", 5]], "how": "inner"},    # OR rewrite, filter not operand 0
     {"kind": "operand", "position": "binop_right", "tree": ["or", ["a", 5], ["a", 5]], "how": "inner"},
     {"kind": "operand", "position": "concat_first", "tree": ["or", ["a", 5], ["a", 5]], "how": "inner"},
-    {"kind": "cross", "op": "reset_index", "tree": ["and", ["a", 12], ["a", 9]], "shared": "none"},   # former index & a column
+    {"kind": "cross", "op": "reset_index", "tree": ["and", ["a", 12], ["a", 9]], "shared": "none"},   # D29: former index & a column
+    {"kind": "cross", "op": "series_reset_index", "tree": ["and", ["a", 12], ["a", 9]], "shared": "none"},   # same on Series.reset_index()
+    {"kind": "cross", "op": "astype_big", "tree": ["a", 14], "shared": "none"},   # int64 -> float64 above 2**53 (numpy "safe")
+    # x = df.shuffle(disk); x[pred].index : Index(shuffle A) masked positionally by a predicate over shuffle B
+    {"kind": "cross", "op": "shuffle_disk", "tree": ["a", 4], "shared": "then_index", "repeat": 40},
 ]
 
 
@@ -1239,9 +1266,11 @@ def _cases(ctx, broken):
         for t in keep:
             cases.append({"kind": "cross", "op": op, "tree": _jsonable_tree(t), "shared": "none"})
         for sh in SHARED[1:]:
+            if sh == "then_index" and op == "shuffle_disk":
+                continue  # nondeterministic on the current tree (see CORPUS: repeated there until it shows)
             for t in rng.sample(trees, 2 if ctx.quick else 25):
                 cases.append({"kind": "cross", "op": op, "tree": _jsonable_tree(t), "shared": sh})
-        if op in ("reset_index", "two_ops_named"):
+        if op in ("reset_index", "series_reset_index"):
             i1, i2 = FORMER_INDEX_ATOMS
             for t in [("a", i1), ("a", i2), ("and", ("a", i1), ("a", 9)), ("or", ("a", i1), ("a", 6)), ("not", ("a", i1)),
                       ("and", ("a", 9), ("a", i1)), ("and", ("a", i1), ("a", i2))]:
